@@ -15,6 +15,7 @@ import (
 	"context"
 	"crypto"
 	"crypto/x509"
+	"encoding/base64"
 	"encoding/json"
 	"encoding/pem"
 	"errors"
@@ -703,6 +704,41 @@ func child(batch int, seed int64, tier, outDir string) {
 				base = policyBlob
 			}
 			in := mutateJSON(rng, base)
+			if rng.Intn(3) == 0 {
+				// vocabulary-aware edit: the signatureVerification member takes every combination of the words the
+				// specification knows (and near misses), with and without the stores / identities a skip statement must not have
+				var doc map[string]any
+				json.Unmarshal(base, &doc)
+				st := doc["trustPolicies"].([]any)[0].(map[string]any)
+				sv := map[string]any{"level": []any{"strict", "permissive", "audit", "skip", "skip", "Skip", "", nil, 7}[rng.Intn(9)]}
+				switch rng.Intn(4) {
+				case 0:
+					ov := map[string]any{}
+					for k := 0; k < 1+rng.Intn(3); k++ {
+						ov[[]string{"integrity", "authenticity", "authenticTimestamp", "expiry", "revocation", "Revocation", ""}[rng.Intn(7)]] = []any{"enforce", "log", "skip", "Skip", "", nil}[rng.Intn(6)]
+					}
+					sv["override"] = ov
+				case 1:
+					sv["override"] = map[string]any{}
+				case 2:
+					sv["override"] = nil
+				}
+				if rng.Intn(3) == 0 {
+					sv["verifyTimestamp"] = []any{"always", "afterCertExpiry", "never", "", nil}[rng.Intn(5)]
+				}
+				st["signatureVerification"] = sv
+				if rng.Bool() {
+					delete(st, "trustStores")
+					delete(st, "trustedIdentities")
+				}
+				if rng.Intn(3) == 0 {
+					delete(st, "globalPolicy") // (blob documents: a named statement; an OCI statement has no such member)
+				}
+				in, _ = json.Marshal(doc)
+				if rng.Intn(4) == 0 {
+					in = mutateJSON(rng, in)
+				}
+			}
 			if rng.Intn(12) == 0 {
 				in = [][]byte{deepNest(15000, `{"trustPolicies":[`, `]}`), []byte(`{"version":"1.0","trustPolicies":null}`), []byte(`{"version":"1.0","trustPolicies":[null]}`), []byte(`null`), rng.Bytes(200)}[rng.Intn(5)]
 			}
@@ -724,6 +760,8 @@ func child(batch int, seed int64, tier, outDir string) {
 						}
 						out, e := v.Verify(ctx, desc, valid[lib.MediaJWS], notation.VerifierVerifyOptions{ArtifactReference: "r.io/a@" + desc.Digest.String(), SignatureMediaType: lib.MediaJWS})
 						_, _ = out, e
+						// ... and through the top-level entry point, which first asks the verifier whether the statement skips
+						notation.Verify(ctx, v, scriptedRepo{desc, valid[lib.MediaJWS], lib.MediaJWS}, notation.VerifyOptions{ArtifactReference: "r.io/a@" + desc.Digest.String(), MaxSignatureAttempts: 2})
 					}
 				}
 				if json.Unmarshal(in, &bd) == nil {
@@ -890,6 +928,24 @@ func child(batch int, seed int64, tier, outDir string) {
 			in := rng.Bytes(rng.Intn(600))
 			if rng.Bool() {
 				in = mutateJSON(rng, []byte(`{"baseCRL":"MIIB","deltaCRL":"MIIB"}`))
+			}
+			if rng.Intn(3) == 0 {
+				// a REAL entry (fresh base CRL) whose members take every degenerate value: the code behind the base CRL's
+				// parsing is only reached when the base CRL parses
+				goodB64 := base64.StdEncoding.EncodeToString(lib.MintCRL(771, time.Now().Add(time.Hour), 0).Raw)
+				oldB64 := base64.StdEncoding.EncodeToString(lib.MintCRL(772, time.Now().Add(-time.Hour), 0).Raw)
+				vals := []any{goodB64, oldB64, "", " ", "=", "====", nil, "MIIB", base64.StdEncoding.EncodeToString([]byte("not a crl")), goodB64 + "\n", []any{}, map[string]any{}, 0, false, goodB64[:len(goodB64)/2]}
+				doc := map[string]any{"baseCRL": goodB64}
+				if rng.Intn(6) == 0 {
+					doc["baseCRL"] = vals[rng.Intn(len(vals))]
+				}
+				if rng.Intn(8) != 0 {
+					doc["deltaCRL"] = vals[rng.Intn(len(vals))]
+				}
+				if rng.Intn(5) == 0 {
+					doc[[]string{"DeltaCRL", "deltacrl", "extra", "baseCrl"}[rng.Intn(4)]] = vals[rng.Intn(len(vals))]
+				}
+				in, _ = json.Marshal(doc)
 			}
 			run("crl cache / trust store files", id, in, func() {
 				cdir := filepath.Join(outDir, fmt.Sprintf("crl-%d", batch))
